@@ -41,7 +41,13 @@ def drive(run, role, events, key=7, mtu=1500, every=True, check_model=True):
            "keys": keys}
     if check_model:
         init = [1 if role == "server" else 0, key if key is not None else -1, 2, now0]
-        reply = run.model.call("conn_run", [env, init, mevs, 1 if every else 0])
+        unit = "conn_run"
+        if any(ev[0] == "setmtu" for ev in events):
+            # Packet.setMTU on a live connection: the history carries [9, env'] events (unit conn_run_mtu);
+            # `env` is the environment the connection was created under
+            unit = "conn_run_mtu"
+            init = init + [0, 0]
+        reply = run.model.call(unit, [env, init, mevs, 1 if every else 0])
         for n, i in enumerate(index):
             a = itrace[n]
             b = [S.canon(reply[i][0]), reply[i][1]]
